@@ -38,21 +38,9 @@ impl BigUint {
 //@ stub u_core/one
 //@ stub u_core/set_one
 //@ stub u_core/normalize
-    //@ assume BigUint::assign_from_slice : body packs u32 pairs with `chunks(2).map(u32_chunk_to_u64)` (iterator adapters: outside the verifier's subset); contract = the property statement
-    #[verifier::external_body]
-    pub fn assign_from_slice(&mut self, slice: &[u32])
-        ensures final(self).wf(), final(self).v() == val32(slice@)
-    { unimplemented!() }
-    //@ assume BigUint::from_slice : one-line wrapper over assign_from_slice (src/biguint.rs), same assumption
-    #[verifier::external_body]
-    pub fn from_slice(slice: &[u32]) -> (r: BigUint)
-        ensures r.wf(), r.v() == val32(slice@)
-    { unimplemented!() }
-    //@ assume BigUint::new : wrapper over assign_from_slice (src/biguint.rs), same assumption
-    #[verifier::external_body]
-    pub fn new(digits: Vec<u32>) -> (r: BigUint)
-        ensures r.wf(), r.v() == val32(digits@)
-    { unimplemented!() }
+//@ stub u_ctor/assign_from_slice
+//@ stub u_ctor/from_slice
+//@ stub u_ctor/new
 //@ stub u_core/is_one
 }
 
